@@ -176,6 +176,9 @@ pub fn retry_sources(cfg: &Config) -> RetrySources {
 }
 
 pub fn scen_retry(cfg: &Config, info: &ScenInfo) -> Option<(usize, Option<Duration>)> {
+    if cfg.retry_policy {
+        return info.has_tag("pol").then_some((2, None));
+    }
     resolve_retry(&info.tags_sc, &info.tags_rule, &info.tags_feat, &retry_sources(cfg))
 }
 
